@@ -1,14 +1,37 @@
-// Kani harnesses for src/chunker.rs + the Raw/Dead arms of src/gzip.rs
-// (C08, C10, C11, C12, C20). Injected as `chunker::verif_h`; shim configuration with the std
-// model (harness/verif_std.rs): the mutex reports lock/unlock as scheduling points to `hook`,
-// which runs consumer polls there -- in particular between the producer's unlock and its
-// `wake()` -- so the solver explores every interleaving at lock-and-wake granularity of a
-// producer program with a polling consumer, without threads.
-#![allow(dead_code, unused_imports, static_mut_refs, unused_variables)]
+// Kani harnesses for src/chunker.rs (C08, C10, C11, C12, C20). Injected as `chunker::verif_h`
+// (a child module: Shared, SharedState, Writer and Reader fields are visible); shim
+// configuration with the std model.
+//
+// METHOD: inductive steps instead of histories. Whole write/flush/poll histories through the
+// real code are out of reach (measured: one `poll_frame` on a heap-resident shared state costs
+// 3-7 million clauses, a 3-operation history with polls > 100 million). All state shared by
+// producer and consumer lives under one mutex, so it suffices to show, from an ARBITRARY
+// shared state that satisfies the invariant INV below,
+//   * PRODUCER STEP (prod_*): any two consecutive producer operations (write / write_all /
+//     flush / abort / drop, lengths from the generated families) return what the property
+//     demands, leave INV intact, append exactly the accepted bytes to `queue ++ buffer`, and
+//     wake a registered waker whenever they publish a chunk, the end, or an error;
+//   * CONSUMER STEP (cons_*): up to three consecutive polls (any wakers) deliver the queued
+//     chunks in FIFO order and unchanged, park only on an empty live queue and then leave the
+//     LATEST waker registered, report hints that bracket what is queued, never claim
+//     end-of-stream before an error or data is delivered, and stay terminated after the first
+//     terminal event;
+//   * READER DROP (rdrop_*): dropping the body tells the writer (state leaves Ok).
+// By induction over the sequence of critical sections this covers histories and interleavings
+// of any length at lock granularity (the mutex is trusted to be a mutex). A counterexample is
+// a pre-state plus operations; the decoder turns the pre-state into a short history that
+// reaches it (it is reachable iff it satisfies INV) and the native replayer runs it.
+//
+// INV (Shared, between critical sections):
+//   I1  state = Ok{ready, ready_bytes, writer_dropped}: ready_bytes = sum of chunk lengths, every
+//       queued chunk is non-empty (and at most `cap` bytes);
+//   I2  a registered waker implies: state is Ok, the queue is empty and the writer is alive
+//       (the consumer parks only when there is nothing to deliver);
+// Writer: capacity(buf) is 0 (then len = 0) or cap, and len(buf) < cap.
+#![allow(dead_code, unused_imports, static_mut_refs, unused_variables, unused_assignments)]
 
 use super::*;
 use crate::body::{Body, BodyStream};
-use crate::gzip::BodyWriter;
 use crate::verif_std as vs;
 use bytes::Buf;
 use std::task::{Context, RawWaker, RawWakerVTable, Waker};
@@ -53,503 +76,585 @@ impl From<crate::BoxError> for HErr {
 }
 
 type TBody = Body<Chunk, HErr>;
-type TWriter = BodyWriter<Chunk, HErr>;
 
 // ---------------------------------------------------------------------------------------
-// wakers: identity = index; wake() counts.
+// wakers: identity = index (0..2); wake() counts.
 
-pub static mut WAKES: [u32; 2] = [0; 2];
+pub static mut WAKES: [u32; 3] = [0; 3];
 
 unsafe fn w_clone(p: *const ()) -> RawWaker {
     RawWaker::new(p, &VT)
 }
 unsafe fn w_wake(p: *const ()) {
     let i = p as usize;
-    WAKES[i & 1] += 1;
+    if i < 3 {
+        WAKES[i] += 1;
+    }
 }
 unsafe fn w_drop(_p: *const ()) {}
 static VT: RawWakerVTable = RawWakerVTable::new(w_clone, w_wake, w_wake, w_drop);
 
 fn waker(i: usize) -> Waker {
-    unsafe { Waker::from_raw(RawWaker::new((i & 1) as *const (), &VT)) }
+    unsafe { Waker::from_raw(RawWaker::new(i as *const (), &VT)) }
 }
 
 // ---------------------------------------------------------------------------------------
-// monitor state
+// pre-states
 
-pub const MAX_ACC: usize = 20;
-pub const MAX_SAMPLES: usize = 14;
+pub const ST_OK: u8 = 0;
+pub const ST_ERR: u8 = 1;
+pub const ST_FUSED: u8 = 2;
 
-pub struct Mon {
-    acc: [u8; MAX_ACC],
-    acc_n: usize,
-    del_n: usize,
-    mismatch: bool,
-    empty_frame: bool,
-    terminal: u8, // 0 none, 1 end, 2 err
-    data_after_terminal: bool,
-    err_after_end: bool,
-    said_eos: bool,
-    eos_violation: bool,
-    parked: bool,
-    park_waker: usize,
-    wakes_at_park: u32,
-    polls: u32,
-    // (delivered so far, lower, upper+1 or 0 = none)
-    samples: [(usize, u64, u64); MAX_SAMPLES],
-    nsamples: usize,
+pub const MAXL: usize = 3; // longest queued chunk / chunk size in the generated families
+pub const NOBUF: u8 = 255;
+
+/// Structural part of a pre-state: constants of the harness instance.
+#[derive(Clone, Copy)]
+pub struct Pre {
+    pub state: u8,
+    /// number of queued chunks (0..=2)
+    pub nq: usize,
+    pub writer_dropped: bool,
+    /// a waker (index 0) is registered
+    pub waker: bool,
+    /// chunk size
+    pub cap: usize,
+    /// bytes already in the writer's buffer (< cap); NOBUF = buffer not allocated
+    pub buf_len: u8,
 }
 
-static mut MON: Mon = Mon {
-    acc: [0; MAX_ACC],
-    acc_n: 0,
-    del_n: 0,
-    mismatch: false,
-    empty_frame: false,
-    terminal: 0,
-    data_after_terminal: false,
-    err_after_end: false,
-    said_eos: false,
-    eos_violation: false,
-    parked: false,
-    park_waker: 0,
-    wakes_at_park: 0,
-    polls: 0,
-    samples: [(0, 0, 0); MAX_SAMPLES],
-    nsamples: 0,
-};
-static mut BODY: *mut TBody = std::ptr::null_mut();
+/// SCENARIO (all families): l0:usize l1:usize q0:[u8;3] q1:[u8;3] wb:[u8;3] data:[u8;8] w1:u8 w2:u8
+pub struct Sym {
+    pub l: [usize; 2],
+    pub q: [[u8; MAXL]; 2],
+    pub wb: [u8; MAXL],
+    pub data: [u8; 8],
+    pub wk: [u8; 2],
+}
 
-/// One consumer poll with waker `wi`, recording everything the properties talk about.
-fn consumer_poll(wi: usize) {
+fn draw_sym(pre: Pre) -> Sym {
+    let l0: usize = kani::any();
+    let l1: usize = kani::any();
+    let q0: [u8; MAXL] = kani::any();
+    let q1: [u8; MAXL] = kani::any();
+    let wb: [u8; MAXL] = kani::any();
+    let data: [u8; 8] = kani::any();
+    let w1: u8 = kani::any();
+    let w2: u8 = kani::any();
+    // I1: queued chunks are non-empty and at most cap bytes
+    kani::assume(l0 >= 1 && l0 <= pre.cap && l1 >= 1 && l1 <= pre.cap);
+    kani::assume(w1 >= 1 && w1 <= 2 && w2 >= 1 && w2 <= 2);
+    Sym { l: [l0, l1], q: [q0, q1], wb, data, wk: [w1, w2] }
+}
+
+fn mk_chunk(bytes: &[u8; MAXL], len: usize) -> Vec<u8> {
+    // all MAXL bytes are written, then the length is cut: no symbolic-size copy
+    let mut v = Vec::with_capacity(MAXL);
+    v.extend_from_slice(&bytes[..]);
+    v.truncate(len);
+    v
+}
+
+fn mk_shared(pre: Pre, sy: &Sym) -> Arc<Mutex<Shared<HErr>>> {
+    let state = match pre.state {
+        ST_OK => {
+            let mut ready = VecDeque::new();
+            let mut ready_bytes = 0;
+            if pre.nq >= 1 {
+                ready.push_back(mk_chunk(&sy.q[0], sy.l[0]));
+                ready_bytes += sy.l[0];
+            }
+            if pre.nq >= 2 {
+                ready.push_back(mk_chunk(&sy.q[1], sy.l[1]));
+                ready_bytes += sy.l[1];
+            }
+            SharedState::Ok { ready, ready_bytes, writer_dropped: pre.writer_dropped }
+        }
+        ST_ERR => SharedState::Err(HErr { tag: 7 }),
+        _ => SharedState::ReaderFused,
+    };
+    Arc::new(Mutex::new(Shared { state, waker: if pre.waker { Some(waker(0)) } else { None } }))
+}
+
+// INV is checked at EVERY release of the mutex (the points where the other thread can look),
+// not only at the end of an operation: an operation that publishes data in one critical section
+// and takes the waker in another is caught here.
+// (a clone of the Arc, not a raw pointer into it: with a raw interior pointer in a static CBMC
+// 6.11 reported a spurious dealloc of the emptied writer buffer -- garbage capacity)
+static mut SHARED_ARC: Option<Arc<Mutex<Shared<HErr>>>> = None;
+pub static mut INV_CHECKS: u32 = 0;
+
+fn check_inv(l: &Shared<HErr>) {
+    if let SharedState::Ok { ready, ready_bytes, writer_dropped } = &l.state {
+        let mut sum = 0;
+        let mut c = 0;
+        while c < NP {
+            if c < ready.len() {
+                let v = ready.get(c).unwrap();
+                assert!(!v.is_empty(), "C08: empty chunk queued");
+                sum += v.len();
+            }
+            c += 1;
+        }
+        assert!(*ready_bytes == sum, "C12: ready_bytes is not the sum of the queued chunk lengths when the lock is released");
+        if l.waker.is_some() {
+            assert!(ready.is_empty() && !*writer_dropped,
+                    "C10: the lock was released with a waker still registered although chunks or the end are available (lost wake-up window)");
+        }
+    }
+}
+
+fn inv_hook(p: vs::Point) {
+    if p != vs::Point::AfterUnlock {
+        return;
+    }
     unsafe {
-        if BODY.is_null() {
-            return;
+        if let Some(a) = SHARED_ARC.as_ref() {
+            let l = a.lock().unwrap();
+            check_inv(&l);
+            INV_CHECKS += 1;
+            drop(l);
         }
-        let body: &mut TBody = &mut *BODY;
-        let m = &mut MON;
-        // C12 samples
-        let hint = http_body::Body::size_hint(&*body);
-        let eos = http_body::Body::is_end_stream(&*body);
-        if m.nsamples < MAX_SAMPLES {
-            m.samples[m.nsamples] = (m.del_n, hint.lower(), match hint.upper() {
-                Some(u) => u + 1,
-                None => 0,
-            });
-            m.nsamples += 1;
+    }
+}
+
+fn install_hook(shared: &Arc<Mutex<Shared<HErr>>>) {
+    unsafe {
+        std::mem::forget(SHARED_ARC.replace(shared.clone()));
+        vs::HOOK = Some(inv_hook);
+    }
+}
+fn remove_hook() {
+    unsafe {
+        vs::HOOK = None;
+    }
+}
+
+// ---------------------------------------------------------------------------------------
+// producer steps
+
+pub const OP_W: u8 = 0; // write(len)
+pub const OP_A: u8 = 1; // write_all(len)
+pub const OP_F: u8 = 2; // flush
+pub const OP_X: u8 = 3; // abort
+pub const OP_D: u8 = 4; // drop the writer
+pub const OP_N: u8 = 5; // nothing (single-operation instances)
+
+pub const NP: usize = 4;
+
+pub fn prod_step(pre: Pre, ops: [(u8, u8); 2]) {
+    use vs::io::Write;
+    let sy = draw_sym(pre);
+    let shared = mk_shared(pre, &sy);
+    let mut buf = Vec::new();
+    let mut pre_buf = 0usize;
+    if pre.buf_len != NOBUF {
+        buf.reserve_exact(pre.cap);
+        pre_buf = pre.buf_len as usize;
+        buf.extend_from_slice(&sy.wb[..pre_buf]);
+    }
+    // (ManuallyDrop + drop in place keeps the writer at one address for the whole harness)
+    let mut w: std::mem::ManuallyDrop<Writer<Chunk, HErr>> =
+        std::mem::ManuallyDrop::new(Writer { shared: shared.clone(), buf, cap: pre.cap, _marker: std::marker::PhantomData });
+    let mut alive = true;
+    install_hook(&shared);
+    // seq = bytes buffered in the pre-state followed by every byte a call reported as accepted
+    let mut seq = [0u8; 16];
+    let mut sn = 0usize;
+    let mut j = 0;
+    while j < MAXL {
+        if j < pre_buf {
+            seq[sn] = sy.wb[j];
+            sn += 1;
         }
-        if eos {
-            m.said_eos = true;
-        }
-        let w = waker(wi);
-        let mut cx = Context::from_waker(&w);
-        // the body lives in a Box that is never moved
-        let pinned = Pin::new_unchecked(body);
-        m.polls += 1;
-        match http_body::Body::poll_frame(pinned, &mut cx) {
-            Poll::Ready(Some(Ok(f))) => {
-                m.parked = false;
-                if m.terminal != 0 {
-                    m.data_after_terminal = true;
-                }
-                if m.said_eos {
-                    m.eos_violation = true;
-                }
-                if let Ok(c) = f.into_data() {
-                    let b = c.chunk();
-                    if b.is_empty() {
-                        m.empty_frame = true;
-                    }
-                    let mut j = 0;
-                    while j < MAX_CAP {
-                        if j < b.len() {
-                            let k = m.del_n + j;
-                            if k >= m.acc_n || k >= MAX_ACC || m.acc[k] != b[j] {
-                                m.mismatch = true;
+        j += 1;
+    }
+    let live0 = pre.state == ST_OK;
+    let mut live = live0; // shared state is Ok (consumer present, no abort yet)
+    let mut aborted = false;
+    let mut dropped_live = false;
+    let mut off = 0usize;
+    let mut failed_before = false;
+    let mut i = 0;
+    while i < 2 {
+        let (kind, len) = ops[i];
+        let n = len as usize;
+        if alive {
+            let wr: &mut Writer<Chunk, HErr> = &mut *w;
+            match kind {
+                OP_W => {
+                    let src = &sy.data[off..off + n];
+                    off += n;
+                    match wr.write(src) {
+                        Ok(k) => {
+                            assert!(k <= n, "C08: write reported more bytes than it was given");
+                            if live && !failed_before {
+                                assert!(n == 0 || k >= 1, "C08: write of a non-empty buffer to a live body accepted nothing");
+                            }
+                            let mut t = 0;
+                            while t < 4 {
+                                if t < k {
+                                    seq[sn] = src[t];
+                                    sn += 1;
+                                }
+                                t += 1;
                             }
                         }
-                        j += 1;
+                        Err(e) => {
+                            std::mem::forget(e);
+                            assert!(!live, "C08: write failed on a live body");
+                            failed_before = true;
+                        }
                     }
-                    if b.len() > MAX_CAP {
-                        m.mismatch = true;
+                }
+                OP_A => {
+                    let src = &sy.data[off..off + n];
+                    off += n;
+                    match wr.write_all(src) {
+                        Ok(()) => {
+                            let mut t = 0;
+                            while t < 4 {
+                                if t < n {
+                                    seq[sn] = src[t];
+                                    sn += 1;
+                                }
+                                t += 1;
+                            }
+                        }
+                        Err(e) => {
+                            std::mem::forget(e);
+                            assert!(!live, "C08: write_all failed on a live body");
+                            failed_before = true;
+                        }
                     }
-                    m.del_n += b.len();
-                    std::mem::forget(c);
                 }
-            }
-            Poll::Ready(Some(Err(e))) => {
-                std::mem::forget(e);
-                m.parked = false;
-                if m.said_eos {
-                    m.eos_violation = true;
+                OP_F => {
+                    let had = !wr.buf.is_empty();
+                    match wr.flush() {
+                        Ok(()) => {
+                            assert!(live || !had, "C11: flush of buffered data succeeded although the body is gone or aborted");
+                            if live {
+                                assert!(wr.buf.is_empty(), "C08: flush returned but accepted bytes are still only in the writer's buffer");
+                            }
+                        }
+                        Err(e) => {
+                            std::mem::forget(e);
+                            assert!(!live, "C08: flush failed on a live body");
+                            failed_before = true;
+                        }
+                    }
                 }
-                if m.terminal == 1 {
-                    m.err_after_end = true;
+                OP_X => {
+                    wr.abort(HErr { tag: 1 });
+                    if live {
+                        aborted = true;
+                    }
+                    live = false;
                 }
-                if m.terminal == 0 {
-                    m.terminal = 2;
+                OP_D => {
+                    if live {
+                        dropped_live = true;
+                    }
+                    alive = false;
+                    unsafe { std::mem::ManuallyDrop::drop(&mut w) };
                 }
-            }
-            Poll::Ready(None) => {
-                m.parked = false;
-                if m.terminal == 0 {
-                    m.terminal = 1;
-                }
-            }
-            Poll::Pending => {
-                m.parked = true;
-                m.park_waker = wi & 1;
-                m.wakes_at_park = WAKES[wi & 1];
+                _ => {}
             }
         }
+        i += 1;
     }
+
+    // ---- post-state
+    remove_hook();
+    let l = shared.lock().unwrap();
+    let mut published = aborted || dropped_live;
+    match &l.state {
+        SharedState::Ok { ready, ready_bytes, writer_dropped } => {
+            assert!(live0 && !aborted, "C11: state is Ok after abort / with the consumer gone");
+            assert!(*writer_dropped == !alive, "C10: writer_dropped flag does not reflect whether the writer is alive");
+            assert!(ready.len() >= pre.nq, "C08: queued chunks disappeared without a consumer");
+            assert!(ready.len() <= NP, "model capacity: more queued chunks than the harness inspects");
+            if ready.len() > pre.nq {
+                published = true;
+            }
+            // old chunks untouched; new chunks ++ buffer = pre-state buffer ++ accepted bytes
+            let mut sum = 0;
+            let mut idx = 0usize;
+            let mut c = 0;
+            while c < NP {
+                if c < ready.len() {
+                    let v = ready.get(c).unwrap();
+                    assert!(!v.is_empty(), "C08: empty chunk queued");
+                    assert!(v.len() <= MAXL + 1, "model capacity: chunk longer than the harness inspects");
+                    sum += v.len();
+                    if c < pre.nq {
+                        assert!(v.len() == sy.l[c], "C08: a queued chunk changed length");
+                        let mut t = 0;
+                        while t < MAXL {
+                            if t < v.len() {
+                                assert!(v[t] == sy.q[c][t], "C08: a queued chunk changed content");
+                            }
+                            t += 1;
+                        }
+                    } else if !failed_before {
+                        let mut t = 0;
+                        while t < MAXL + 1 {
+                            if t < v.len() {
+                                assert!(idx < sn, "C08: more bytes queued than were accepted (duplication)");
+                                assert!(v[t] == seq[idx], "C08: queued bytes differ from the accepted bytes (order, loss or duplication)");
+                                idx += 1;
+                            }
+                            t += 1;
+                        }
+                    }
+                }
+                c += 1;
+            }
+            assert!(*ready_bytes == sum, "C12: ready_bytes is not the sum of the queued chunk lengths");
+            if l.waker.is_some() {
+                assert!(ready.is_empty() && !*writer_dropped, "C10: a waker stays registered while chunks or the end are pending");
+            }
+            if !failed_before {
+                match alive {
+                    true => {
+                        let wr: &Writer<Chunk, HErr> = &*w;
+                        assert!(wr.buf.len() <= MAXL + 1, "model capacity: buffer longer than the harness inspects");
+                        let mut t = 0;
+                        while t < MAXL + 1 {
+                            if t < wr.buf.len() {
+                                assert!(idx < sn, "C08: more bytes buffered than were accepted (duplication)");
+                                assert!(wr.buf[t] == seq[idx], "C08: buffered bytes differ from the accepted bytes");
+                                idx += 1;
+                            }
+                            t += 1;
+                        }
+                    }
+                    false => {}
+                }
+                assert!(idx == sn, "C08: accepted bytes are neither queued nor buffered (loss)");
+            }
+        }
+        SharedState::Err(_) => {
+            assert!(aborted || pre.state == ST_ERR, "C11: error state without abort");
+            assert!(l.waker.is_none(), "C10: waker still registered after abort");
+        }
+        SharedState::ReaderFused => {
+            assert!(pre.state == ST_FUSED, "C11: consumer-gone state invented by the producer");
+        }
+    }
+    if pre.waker && published {
+        assert!(l.waker.is_none(), "C10: a waker is still registered although data / end / error was published");
+        assert!(unsafe { WAKES[0] } >= 1, "C10: parked consumer was not woken when data, the end or an error became available");
+    }
+    drop(l);
+    // the writer-side part of INV must be re-established for the induction to be valid
+    if alive {
+        let wr: &Writer<Chunk, HErr> = &*w;
+        if !failed_before && live0 && !aborted {
+            assert!(wr.buf.capacity() == 0 || wr.buf.capacity() >= pre.cap, "HARNESS-ASSUMPTION INV: writer buffer capacity is neither 0 nor the chunk size");
+            assert!(wr.buf.len() < pre.cap, "HARNESS-ASSUMPTION INV: the writer keeps a full chunk between calls");
+        }
+    }
+    kani::cover!(true, "post-state reached");
+    std::mem::forget(shared);
 }
 
 // ---------------------------------------------------------------------------------------
-// schedule
+// consumer steps
 
-pub const MAX_CAP: usize = 4;
-/// longest buffer handed to one write (> every tested chunk size, so partial writes occur)
-pub const MAX_W: usize = 5;
-pub const N_OPS: usize = 4;
-pub const N_SCHED: usize = 6;
-
-/// At yield point number k (k-th lock/unlock event of a producer operation) the consumer
-/// runs SCHED[k].0 polls (0..=2) with waker SCHED[k].1.
-static mut SCHED: [(u8, u8); N_SCHED] = [(0, 0); N_SCHED];
-static mut SCHED_I: usize = 0;
-static mut HOOK_ON: bool = false;
-
-fn hook(_p: vs::Point) {
-    unsafe {
-        if !HOOK_ON {
-            return;
-        }
-        if SCHED_I < N_SCHED {
-            let (n, wi) = SCHED[SCHED_I];
-            SCHED_I += 1;
-            if n >= 1 {
-                consumer_poll(wi as usize);
-            }
-            if n >= 2 {
-                consumer_poll(wi as usize);
-            }
-        }
-    }
-}
-
-#[derive(Clone, Copy)]
-pub struct Op {
-    kind: u8, // 0 write 1 flush 2 poll 3 abort 4 write_all 5 nop
-    len: u8,
-    wk: u8,
-}
-
-pub struct Sc {
-    ops: [Op; N_OPS],
-    data: [u8; MAX_ACC],
-}
-
-/// SCENARIO chunker_*: cap:u8 | N_OPS x (kind:u8 len:u8 wk:u8) | data:[u8;24] | N_SCHED x (n:u8 wk:u8)
-fn draw(allow_abort: bool, interleave: bool) -> Sc {
-    let mut ops = [Op { kind: 5, len: 0, wk: 0 }; N_OPS];
-    let mut i = 0;
-    while i < N_OPS {
-        let kind: u8 = kani::any();
-        let len: u8 = kani::any();
-        let wk: u8 = kani::any();
-        kani::assume(kind <= 5 && wk <= 1 && (len as usize) <= MAX_W);
-        if !allow_abort {
-            kani::assume(kind != 3);
-        }
-        ops[i] = Op { kind, len, wk };
-        i += 1;
-    }
-    let data: [u8; MAX_ACC] = kani::any();
+pub fn cons_step(pre: Pre, npolls: usize) {
+    let sy = draw_sym(pre);
+    let shared = mk_shared(pre, &sy);
+    let reader: Reader<Chunk, HErr> = Reader { shared: shared.clone(), _marker: std::marker::PhantomData };
+    let body: TBody = Body(BodyStream::Chunker(reader));
+    let mut body = Box::pin(body);
+    install_hook(&shared);
+    let queued: usize = match pre.state {
+        ST_OK => (if pre.nq >= 1 { sy.l[0] } else { 0 }) + (if pre.nq >= 2 { sy.l[1] } else { 0 }),
+        _ => 0,
+    };
+    let mut delivered = 0usize;
+    let mut nframes = 0usize;
+    let mut terminal = 0u8; // 1 end, 2 err
+    let mut said_eos = false;
+    let mut last_pending_waker: Option<usize> = None;
     let mut k = 0;
-    while k < N_SCHED {
-        let n: u8 = kani::any();
-        let wi: u8 = kani::any();
-        kani::assume(n <= 2 && wi <= 1);
-        if !interleave {
-            kani::assume(n == 0);
-        }
-        unsafe {
-            SCHED[k] = (n, wi);
+    while k < 3 {
+        if k < npolls {
+            let hint = http_body::Body::size_hint(&*body);
+            let eos = http_body::Body::is_end_stream(&*body);
+            // C12: the hint brackets what is queued and still undelivered
+            if terminal == 0 {
+                let rest = (queued - delivered) as u64;
+                // (what the body still delivers on a clean end is at least what is queued; with
+                // the writer alive it is unbounded, so no upper bound may be given then)
+                if pre.state == ST_OK {
+                    assert!(hint.lower() <= rest, "C12: size hint lower bound exceeds the queued bytes although the writer may add nothing more");
+                    if pre.writer_dropped {
+                        assert!(hint.upper().is_none() || hint.upper().unwrap() >= rest, "C12: size hint upper bound below the queued bytes");
+                    } else {
+                        assert!(hint.upper().is_none(), "C12: size hint gives an upper bound while the writer can still add data");
+                    }
+                } else {
+                    assert!(hint.lower() == 0, "C12: size hint promises data in a terminal state");
+                }
+            }
+            if eos {
+                said_eos = true;
+            }
+            let wi = if k == 0 { sy.wk[0] as usize } else { sy.wk[1] as usize };
+            let w = waker(wi);
+            let mut cx = Context::from_waker(&w);
+            match http_body::Body::poll_frame(body.as_mut(), &mut cx) {
+                Poll::Ready(Some(Ok(f))) => {
+                    assert!(terminal == 0, "C20: data after the body terminated");
+                    assert!(!said_eos, "C12: data after is_end_stream()");
+                    assert!(pre.state == ST_OK && nframes < pre.nq, "C08: a frame that was never queued");
+                    if let Ok(c) = f.into_data() {
+                        let b = c.chunk();
+                        assert!(!b.is_empty(), "C08: empty data frame");
+                        assert!(b.len() == sy.l[nframes], "C08: frame length differs from the queued chunk");
+                        let mut t = 0;
+                        while t < MAXL {
+                            if t < b.len() {
+                                assert!(b[t] == sy.q[nframes][t], "C08: frame bytes differ from the queued chunk (order or content)");
+                            }
+                            t += 1;
+                        }
+                        delivered += b.len();
+                        std::mem::forget(c);
+                    } else {
+                        assert!(false, "C08: a non-data frame");
+                    }
+                    nframes += 1;
+                    last_pending_waker = None;
+                }
+                Poll::Ready(Some(Err(e))) => {
+                    std::mem::forget(e);
+                    assert!(terminal == 0, "C20: error after the body terminated");
+                    assert!(!said_eos, "C12: error after is_end_stream()");
+                    assert!(pre.state == ST_ERR, "C11: error without abort");
+                    terminal = 2;
+                    last_pending_waker = None;
+                }
+                Poll::Ready(None) => {
+                    if terminal == 0 {
+                        assert!(pre.state != ST_ERR, "C11: clean end although an abort error is pending");
+                        assert!(pre.state == ST_FUSED || (nframes == pre.nq && pre.writer_dropped), "C10: clean end while chunks are queued or the writer is alive");
+                        terminal = 1;
+                    }
+                    last_pending_waker = None;
+                }
+                Poll::Pending => {
+                    assert!(terminal == 0, "C20: Pending after the body terminated");
+                    assert!(pre.state == ST_OK && nframes == pre.nq && !pre.writer_dropped, "C10: Pending while chunks, the end or an error are available");
+                    last_pending_waker = Some(wi);
+                }
+            }
         }
         k += 1;
     }
-    Sc { ops, data }
-}
-
-fn record_accept(src: &[u8], n: usize) {
-    unsafe {
-        let m = &mut MON;
-        let mut j = 0;
-        while j < MAX_W {
-            if j < n {
-                if m.acc_n < MAX_ACC {
-                    m.acc[m.acc_n] = src[j];
-                    m.acc_n += 1;
-                } else {
-                    m.mismatch = true; // harness buffer too small: treated as inconclusive below
-                }
-            }
-            j += 1;
+    // ---- post-state: what the next step starts from
+    remove_hook();
+    {
+        let l = shared.lock().unwrap();
+        // C10: after a Pending poll the LATEST waker is the one registered
+        if let Some(wi) = last_pending_waker {
+            let ok = match &l.waker {
+                Some(w) => w.will_wake(&waker(wi)),
+                None => false,
+            };
+            assert!(ok, "C10: consumer parked but the waker of its latest poll is not the one registered");
         }
-    }
-}
-
-/// Runs the scenario for one concrete chunk size.
-fn run(cap: usize, sc: &Sc, allow_abort: bool, drop_body_at: Option<usize>) {
-    use vs::io::Write;
-    let (w, r) = Writer::<Chunk, HErr>::with_chunk_size(cap);
-    let mut w: Option<TWriter> = Some(BodyWriter::raw(w));
-    let mut body: Option<Box<TBody>> = Some(Box::new(Body(BodyStream::Chunker(r))));
-    unsafe {
-        BODY = &mut **body.as_mut().unwrap() as *mut TBody;
-        vs::HOOK = Some(hook);
-        HOOK_ON = true;
-    }
-    let mut aborted = false;
-    let mut body_dropped = false;
-    let mut off = 0usize;
-    let mut i = 0;
-    while i < N_OPS {
-        if drop_body_at == Some(i) && !body_dropped {
-            unsafe {
-                BODY = std::ptr::null_mut();
-            }
-            body = None;
-            body_dropped = true;
-        }
-        let op = sc.ops[i];
-        let n = op.len as usize;
-        match op.kind {
-            0 | 4 => {
-                // write / write_all of data[off..off+n]
-                if off + n <= MAX_ACC {
-                    let src = &sc.data[off..off + n];
-                    let wr = w.as_mut().unwrap();
-                    if op.kind == 0 {
-                        match wr.write(src) {
-                            Ok(k) => {
-                                assert!(k <= n, "C08: write reported more bytes than it was given");
-                                assert!(!(aborted), "C11: write succeeded after abort");
-                                if !body_dropped {
-                                    assert!(n == 0 || k >= 1, "C08: write of a non-empty buffer to a live body accepted nothing");
-                                }
-                                record_accept(src, k);
+        match &l.state {
+            SharedState::Ok { ready, ready_bytes, writer_dropped } => {
+                assert!(terminal == 0, "C20: a terminal event was reported but the shared state is still live");
+                assert!(pre.state == ST_OK, "C20: terminal state became live again");
+                assert!(*writer_dropped == pre.writer_dropped, "C10: a poll changed the writer_dropped flag");
+                assert!(ready.len() + nframes == pre.nq, "C08: chunks lost or duplicated by a poll");
+                let mut sum = 0;
+                let mut c = 0;
+                while c < 2 {
+                    if c < ready.len() {
+                        let v = ready.get(c).unwrap();
+                        let o = c + nframes;
+                        assert!(v.len() == sy.l[o], "C08: a queued chunk changed length during a poll");
+                        let mut t = 0;
+                        while t < MAXL {
+                            if t < v.len() {
+                                assert!(v[t] == sy.q[o][t], "C08: a queued chunk changed content during a poll");
                             }
-                            Err(e) => {
-                                std::mem::forget(e);
-                                assert!(aborted || body_dropped, "C08: write failed on a live body");
-                            }
+                            t += 1;
                         }
-                    } else {
-                        match wr.write_all(src) {
-                            Ok(()) => {
-                                assert!(!aborted || n == 0, "C11: write_all succeeded after abort");
-                                record_accept(src, n);
-                            }
-                            Err(e) => {
-                                std::mem::forget(e);
-                                assert!(aborted || body_dropped, "C08: write_all failed on a live body");
-                            }
-                        }
+                        sum += v.len();
                     }
-                    off += n;
+                    c += 1;
+                }
+                assert!(*ready_bytes == sum, "C12: ready_bytes is not the sum of the queued chunk lengths after a poll");
+                if l.waker.is_some() {
+                    assert!(ready.is_empty() && !*writer_dropped, "C10: a waker is registered although chunks or the end are available");
                 }
             }
-            1 => {
-                let wr = w.as_mut().unwrap();
-                let before_polls = unsafe { MON.polls };
-                match wr.flush() {
-                    Ok(()) => {
-                        assert!(!aborted, "C11: flush succeeded after abort");
-                        // C08: right after flush returns, everything accepted is available to the
-                        // consumer without further producer action.
-                        if !body_dropped {
-                            unsafe {
-                                HOOK_ON = false;
-                            }
-                            let mut g = 0;
-                            // at most one chunk per producer operation can be queued
-                            while g < N_OPS + 1 {
-                                let before = unsafe { MON.del_n };
-                                if unsafe { MON.del_n < MON.acc_n && MON.terminal == 0 } {
-                                    consumer_poll(0);
-                                    assert!(unsafe { MON.del_n > before || MON.terminal != 0 }, "C08: after flush, accepted bytes are not available to the consumer");
-                                }
-                                g += 1;
-                            }
-                            unsafe {
-                                HOOK_ON = true;
-                            }
-                            assert!(unsafe { MON.del_n == MON.acc_n || MON.terminal != 0 }, "C08: after flush, accepted bytes are not available to the consumer");
-                        }
-                    }
-                    Err(e) => {
-                        std::mem::forget(e);
-                        assert!(aborted || body_dropped, "C08: flush failed on a live body");
-                    }
-                }
+            SharedState::Err(_) => {
+                assert!(pre.state == ST_ERR && terminal == 0, "C11/C20: the error is still pending after it was delivered");
             }
-            2 => {
-                if !body_dropped {
-                    consumer_poll(op.wk as usize);
-                }
-            }
-            3 => {
-                let wr = w.as_mut().unwrap();
-                wr.abort(HErr { tag: 1 });
-                aborted = true;
-                // C10: an abort wakes a parked consumer
-                unsafe {
-                    if MON.parked && !body_dropped {
-                        assert!(WAKES[MON.park_waker] > MON.wakes_at_park, "C10: consumer parked on an empty queue was not woken by abort");
-                    }
-                }
-            }
-            _ => {}
-        }
-        // C10: whenever data is available and the consumer is parked, it has been woken.
-        unsafe {
-            if !body_dropped && MON.parked && MON.terminal == 0 {
-                let avail = http_body::Body::size_hint(&**body.as_ref().unwrap()).lower();
-                if avail > 0 {
-                    assert!(WAKES[MON.park_waker] > MON.wakes_at_park, "C10: data was queued but the parked consumer was not woken");
-                }
+            SharedState::ReaderFused => {
+                // terminal, or the last chunk of a finished writer was just handed out
+                assert!(pre.state == ST_FUSED || terminal != 0 || (pre.state == ST_OK && pre.writer_dropped && nframes == pre.nq),
+                        "C08/C10: the body was fused although chunks are queued or the writer is alive");
             }
         }
-        i += 1;
+        drop(l);
     }
-
-    // C11 second half: the consumer is gone -> the writer is told.
-    if body_dropped && !aborted {
-        let wr = w.as_mut().unwrap();
-        let r1 = wr.write(&[7u8]);
-        let r2 = wr.flush();
-        let ok1 = r1.is_ok();
-        let ok2 = r2.is_ok();
-        std::mem::forget(r1);
-        std::mem::forget(r2);
-        assert!(!(ok1 && ok2), "C11: response body dropped, yet write + flush still succeed (writer never told)");
-    }
-
-    // writer goes away
-    let parked_before_drop = unsafe { MON.parked };
-    let wakes_before_drop = unsafe { WAKES };
-    drop(w.take());
-    if !body_dropped {
-        unsafe {
-            HOOK_ON = false;
-            // C10: the drop (or the abort before it) woke a parked consumer
-            if parked_before_drop && MON.parked {
-                assert!(WAKES[MON.park_waker] > MON.wakes_at_park, "C10: writer dropped but the parked consumer was never woken (sleeps forever)");
-            }
-            // bounded termination: queued chunks + 2 polls
-            let mut g = 0;
-            while g < N_OPS + 3 {
-                if MON.terminal == 0 {
-                    consumer_poll(0);
-                    assert!(!MON.parked, "C10: writer is gone but the body is still Pending");
-                }
-                g += 1;
-            }
-            assert!(MON.terminal != 0, "C10: body did not terminate within the poll bound after the writer was dropped");
-            // C20: three more polls
-            consumer_poll(1);
-            consumer_poll(1);
-            consumer_poll(0);
-            let m = &MON;
-            assert!(!m.data_after_terminal, "C20: data after the streaming body terminated");
-            assert!(!m.err_after_end, "C20: error after the streaming body ended cleanly");
-            assert!(!m.eos_violation, "C12: is_end_stream() was true but data or an error followed");
-            assert!(!m.empty_frame, "C08: empty data frame");
-            assert!(!m.mismatch, "C08/C11: delivered bytes are not the accepted bytes in order");
-            if aborted {
-                assert!(m.terminal == 2, "C11: clean end after abort");
-                assert!(m.del_n <= m.acc_n, "C11: delivered more than was written");
-            } else {
-                assert!(m.terminal == 1, "C08: body failed without abort");
-                assert!(m.del_n == m.acc_n, "C08: delivered byte count differs from accepted byte count");
-                // C12: every sampled hint bracketed what was still to come
-                let mut s = 0;
-                while s < MAX_SAMPLES {
-                    if s < m.nsamples {
-                        let (d, lo, up1) = m.samples[s];
-                        let rest = (m.del_n - d) as u64;
-                        assert!(lo <= rest, "C12: size hint lower bound above the bytes still delivered");
-                        if up1 != 0 {
-                            assert!(up1 - 1 >= rest, "C12: size hint upper bound below the bytes still delivered");
-                        }
-                    }
-                    s += 1;
-                }
-            }
-            kani::cover!(m.terminal == 1 && m.del_n >= 3, "clean end with >= 3 bytes");
-            kani::cover!(m.terminal == 2 && m.del_n >= 1, "abort after some data was delivered");
-            kani::cover!(m.nsamples >= 5, "at least five polls");
-        }
-    }
-    unsafe {
-        BODY = std::ptr::null_mut();
-        HOOK_ON = false;
-    }
+    kani::cover!(true, "post-state reached");
     std::mem::forget(body);
+    std::mem::forget(shared);
 }
 
-fn cap_of(k: u8) -> usize {
-    match k {
-        0 => 1,
-        1 => 2,
-        2 => 3,
-        _ => 4,
-    }
+/// Reader dropped (client gone): the shared state tells the writer (C11), the waker is released.
+pub fn reader_drop_step(pre: Pre) {
+    let sy = draw_sym(pre);
+    let shared = mk_shared(pre, &sy);
+    let reader: Reader<Chunk, HErr> = Reader { shared: shared.clone(), _marker: std::marker::PhantomData };
+    drop(reader);
+    let l = shared.lock().unwrap();
+    let gone = match &l.state {
+        SharedState::Ok { .. } => false,
+        _ => true,
+    };
+    assert!(gone, "C11: response body dropped but the shared state still accepts chunks (the writer is never told)");
+    drop(l);
+    kani::cover!(true, "post-state reached");
+    std::mem::forget(shared);
 }
 
-macro_rules! chunker_harness {
-    ($name:ident, $cap:expr, $abort:expr, $inter:expr, $unwind:expr) => {
+macro_rules! prod {
+    ($name:ident, $pre:expr, $ops:expr) => {
         #[kani::proof]
-        #[kani::unwind($unwind)]
-        #[kani::stub(core::slice::memchr::memchr, naive_memchr)]
+        #[kani::unwind(10)]
         pub fn $name() {
-            let sc = draw($abort, $inter);
-            run($cap, &sc, $abort, None);
+            prod_step($pre, $ops)
+        }
+    };
+}
+macro_rules! cons {
+    ($name:ident, $pre:expr, $n:expr) => {
+        #[kani::proof]
+        #[kani::unwind(10)]
+        pub fn $name() {
+            cons_step($pre, $n)
+        }
+    };
+}
+macro_rules! rdrop {
+    ($name:ident, $pre:expr) => {
+        #[kani::proof]
+        #[kani::unwind(10)]
+        pub fn $name() {
+            reader_drop_step($pre)
         }
     };
 }
 
-pub fn naive_memchr(x: u8, text: &[u8]) -> Option<usize> {
-    let mut i = 0;
-    while i < text.len() {
-        if text[i] == x {
-            return Some(i);
-        }
-        i += 1;
-    }
-    None
-}
-
-// sequential histories (C08, C12, C20)
-chunker_harness!(chunker_seq_cap1, 1, false, false, 26);
-chunker_harness!(chunker_seq_cap2, 2, false, false, 26);
-chunker_harness!(chunker_seq_cap3, 3, false, false, 26);
-chunker_harness!(chunker_seq_cap4, 4, false, false, 26);
-// with abort (C11)
-chunker_harness!(chunker_abort_cap2, 2, true, false, 26);
-chunker_harness!(chunker_abort_cap3, 3, true, false, 26);
-// interleaved consumer (C10)
-chunker_harness!(chunker_inter_cap1, 1, true, true, 26);
-chunker_harness!(chunker_inter_cap2, 2, true, true, 26);
-
-/// Body dropped at a symbolic position of the producer program (C11, second half).
-#[kani::proof]
-#[kani::unwind(26)]
-pub fn chunker_body_drop_cap2() {
-    let sc = draw(false, false);
-    let at: usize = kani::any();
-    kani::assume(at < N_OPS);
-    run(2, &sc, false, Some(at));
-}
+#[path = "chunker_gen.rs"]
+pub mod gen;
